@@ -41,6 +41,8 @@ def base_diagram():
              'ids': [['Name', 'Kind']]},
             {'kl': 'I', 'name': 'Item', 'comp': 'C1', 'attrs': [A('Id', 'base', 'unique_id'), A('Holder', 'ref'), A('Variety', 'ref')],
              'ids': [['Id']]},
+            # refers to an identifying attribute that is itself referential and named differently from its base attribute
+            {'kl': 'H', 'name': 'Hanger', 'comp': 'C1', 'attrs': [A('Id', 'base', 'unique_id'), A('U_Ref', 'ref')], 'ids': [['Id']]},
         ],
         'rels': [
             {'k': 'simple', 'num': 1, 'comp': 'C1', 'form': 'B', 'part': 'A', 'fm': 1, 'fc': 1, 'pm': 0, 'pc': 0,
@@ -54,6 +56,8 @@ def base_diagram():
              'fph': 'child of', 'pph': 'parent of', 'keys': [['P_Id', 'Id']]},
             {'k': 'simple', 'num': 6, 'comp': 'C1', 'form': 'G', 'part': 'T', 'fm': 1, 'fc': 0, 'pm': 0, 'pc': 1,
              'fph': '', 'pph': '', 'keys': [['T_Id', 'Id']]},
+            {'k': 'simple', 'num': 10, 'comp': 'C1', 'form': 'H', 'part': 'U', 'fm': 1, 'fc': 1, 'pm': 0, 'pc': 1,
+             'fph': '', 'pph': '', 'keys': [['U_Ref', 'Super_Id']]},
             {'k': 'simple', 'num': 8, 'comp': 'C1', 'form': 'I', 'part': 'W', 'fm': 1, 'fc': 1, 'pm': 0, 'pc': 0,
              'fph': 'belongs to', 'pph': 'has', 'keys': [['Holder', 'Name'], ['Variety', 'Kind']]},
         ],
